@@ -9,7 +9,7 @@ import ast
 import z3
 
 from . import spec as S
-from .spec import Opt, BoolV, RealV, SliceV, SeqV, TupV, MapV, StrV, NanV, ObjV, AbsV
+from .spec import Opt, BoolV, RealV, SliceV, SeqV, TupV, MapV, StrV, NanV, ObjV, AbsV, SliceSeqV, SortedItemsV
 from . import engine as E
 
 I = E.I
@@ -261,6 +261,11 @@ def call(ex, node, name, st):
         raise E.Unsupported(f"isnan of {v!r}")
     if name in ("math.ceil", "np.ceil"):
         v = A(0)
+        if isinstance(v, RealV) and v.ratio is not None:
+            # ceil of an exact integer quotient (assumption A3: magnitudes below 2**52)
+            num, den = v.ratio
+            ex.oblige(st, "safe", "div-zero", den != 0, node.lineno)
+            return I(S.ceildiv(num, den))
         if isinstance(v, RealV):
             return I(-z3.ToInt(-v.t))
         return I(S.as_int(ex.need_int(v, st, node)))
@@ -353,8 +358,20 @@ def call(ex, node, name, st):
         raise E.Unsupported("dict.fromkeys form")
     if name == "sorted":
         v = A(0)
-        if isinstance(v, tuple) and v and v[0] == "items":
-            return ("sorted_items", v[1])
+        if isinstance(v, tuple) and v and v[0] == "items" and isinstance(v[1], MapV):
+            m = v[1]
+            ex.nfresh += 1
+            ks = z3.Const(f"sortedkeys!{ex.nfresh}", S.SeqSort)
+            n = S.f_len(ks)
+            rank = z3.Function(f"rank!{ex.nfresh}", z3.IntSort(), z3.IntSort())
+            a_, b_, k_ = z3.Ints("a!sk b!sk k!sk")
+            st.pc.append(z3.ForAll([a_, b_], z3.Implies(z3.And(0 <= a_, a_ < b_, b_ < n), S.f_at(ks, a_) < S.f_at(ks, b_)),
+                                   patterns=[z3.MultiPattern(S.f_at(ks, a_), S.f_at(ks, b_))]))
+            st.pc.append(z3.ForAll([a_], z3.Implies(z3.And(0 <= a_, a_ < n), z3.Select(m.has, S.f_at(ks, a_))),
+                                   patterns=[S.f_at(ks, a_)]))
+            st.pc.append(z3.ForAll([k_], z3.Implies(z3.Select(m.has, k_), z3.And(0 <= rank(k_), rank(k_) < n, S.f_at(ks, rank(k_)) == k_)),
+                                   patterns=[z3.Select(m.has, k_)]))
+            return SortedItemsV(m, ks, n)
         raise E.Unsupported("sorted() of this value")
     if name == "enumerate" or name == "zip":
         raise E.Unsupported(f"{name} outside a for loop")
